@@ -34,10 +34,10 @@ MONITORS = {
                     "persistence notices (<= 17 ops): persisted index, the leader's own matched index and the commit index never exceed the last entry of the Readys reported durable"},
     "C06": {"bin": "mon_c06", "quick": 50000, "thorough": 3000000,
             "what": "real RawNode<MemStorage> (lone voter + learner, or three voters) under random campaigns, ticks, proposals, higher-term vote requests / heartbeats, "
-                    "vote responses to released requests, appends and (requested) snapshots from the known leader, synchronous and asynchronous Readys and late persistence notices (<= 19 ops, plus a directed family: lone voter deposed, snapshot requested and restored, random timer / persistence steps): every message is checked, at the "
+                    "vote responses to released requests (rejections carry the peer's commit index), appends and snapshots from the known leader (at, below, above the commit index, just beyond the log; requested or not), compaction of applied entries, synchronous and asynchronous Readys, late persistence notices, and CRASHES: the node restarts from a durable image that holds exactly the Readys reported persisted, plus possibly a prefix (snapshot / snapshot + entries) of the oldest unfinished write (<= 19 ops, plus a directed family: lone voter deposed, snapshot requested and restored, random timer / persistence / crash steps): after a restart the term is not below any released message and the vote matches what was told; every message is checked, at the "
                     "moment it may be sent, against the hard state of the Readys reported persisted (term not ahead, vote grant matches the durable vote)"},
     "C20": {"bin": "mon_c06", "args": ["--prop", "C20"], "quick": 50000, "thorough": 3000000,
-            "what": "the RawNode driver of mon_c06 (campaigns, ticks, proposals, higher-term messages, appends and requested snapshots from the known leader, synchronous and asynchronous Readys, late notices; lone voter + learner "
+            "what": "the RawNode driver of mon_c06 (campaigns, ticks, proposals, higher-term messages, appends and snapshots from the known leader, compaction, synchronous and asynchronous Readys, late notices, crashes and restarts from the durable image; lone voter + learner "
                     "or three voters; <= 19 ops) with only panics reported: no library call may panic under contract-abiding use"},
     "C12": {"bin": "mon_c12", "quick": 20000, "thorough": 1000000,
             "what": "real Changer::{simple, enter_joint, leave_joint} + ProgressTracker::apply_conf vs the set-based reference semantics under random change sequences (<= 8 changes, "
